@@ -1,14 +1,14 @@
-\* exhaustive plan enumeration (no VIEW): the shape of the target address as a dimension of every create - <= 2 requests
-\* setting up a state (creates with an address of any shape), one probe (create classes with an address of any shape),
+\* exhaustive plan enumeration (no VIEW): the shape of the target address as a dimension of every create - <= 1 request
+\* setting up a state (a create with an address of any shape), one probe (create classes with an address of any shape),
 \* one accepted request after it
 SPECIFICATION Spec
 CHECK_DEADLOCK FALSE
 INVARIANTS PlanOut
 CONSTANTS
   Slots = {1}
-  CreateKinds = {"create", "create_pos"}
-  OddKinds = {"create_odd"}
-  MaxSetup = 2
+  CreateKinds = {"create"}
+  OddKinds = {}
+  MaxSetup = 1
   MaxProbes = 1
   MaxAfter = 1
   DotNameHandled = FALSE
